@@ -133,6 +133,8 @@ def join_tokens(toks, rng, ws, escape):
         if escape:
             t = "".join({"&": "&amp;", "<": "&lt;", ">": "&gt;"}[ch] if ch in "&<>" and (escape == 2 or rng.chance(1, 2)) else ch
                         for ch in t)
+        if ws == 3:
+            return join_min_space(toks, rng, escape)
         if ws == 0:
             sep = ""
         elif ws == 1:
@@ -144,6 +146,79 @@ def join_tokens(toks, rng, ws, escape):
     if ws == 2 and rng.chance(1, 2):
         s += rng.choice([" ", "\n", "  "])
     return s
+
+
+# ------------------------------------------- minimal white space (lexer) --
+# Written from the lexer's greedy rules, independently of the Coq predicate needs_space: a separator is
+# needed exactly when the first (entity-decoded) character of the next token would be absorbed.
+IDENT_CH = set("abcdefghijklmnopqrstuvwxyzABCDEFGHIJKLMNOPQRSTUVWXYZ0123456789._")
+ENTITIES = (("&amp;", "&"), ("&lt;", "<"), ("&gt;", ">"))
+
+
+def decode_first(text):
+    for ent, ch in ENTITIES:
+        if text.startswith(ent):
+            return ch
+    return text[:1]
+
+
+def decode_all(text):
+    out = []
+    while text:
+        for ent, ch in ENTITIES:
+            if text.startswith(ent):
+                out.append(ch)
+                text = text[len(ent):]
+                break
+        else:
+            out.append(text[0])
+            text = text[1:]
+    return "".join(out)
+
+
+def py_needs_space(a, b):
+    """a, b: spelled tokens (text, possibly with entity escapes)."""
+    da, w = decode_all(a), decode_first(b)
+    if da == "*":
+        return w == "*"
+    if da == "|":
+        return w == "|"
+    if da == "&":
+        return w == "&"
+    if da == "<":
+        return w in "<>="
+    if da == ">":
+        return w in ">="
+    if da[0].isalpha():
+        return w in IDENT_CH
+    if da.startswith("0x"):
+        return w in "0123456789abcdefABCDEF"
+    if da[0] == ".":
+        return w.isdigit()
+    if da[0].isdigit():
+        return w.isdigit() or w == "." or (da == "0" and w == "x")
+    return False
+
+
+def escape_token(t, rng, escape):
+    if not escape:
+        return t
+    return "".join({"&": "&amp;", "<": "&lt;", ">": "&gt;"}[ch] if ch in "&<>" and (escape == 2 or rng.chance(1, 2)) else ch
+                   for ch in t)
+
+
+def join_min_space(toks, rng, escape):
+    sp = [escape_token(t, rng, escape) for t in toks]
+    out = []
+    for i, t in enumerate(sp):
+        out.append(t)
+        if i + 1 < len(sp) and py_needs_space(t, sp[i + 1]):
+            out.append(" ")
+    return "".join(out)
+
+
+SOUP_TOKENS = ["(", ")", "+", "-", "*", "**", "/", "%", "&", "&&", "|", "||", "^", "~", "=", "<>", ":", "?", "<", "<=", ">", ">=",
+               "<<", ">>", "X", "Y", "x1", "amp", "lt", "gt", "a_b", "e5", "0", "7", "12", "0x1f", "0xA", "1.5", ".5", "3.", "00"]
 
 
 # --------------------------------------------------- reference evaluator --
@@ -375,11 +450,109 @@ def model_term(meta):
     return "run_fe %s %s %s" % (fops, zl(meta["src"].encode()), env)
 
 
+# Reference reader for texts that are not generated from a tree (malformed / token-soup families).  It is used ONLY to fill the
+# model's per-case libm table when such a text happens to have a well-formed prefix; nothing is judged with it.
+import re as _re
+_TOK = _re.compile(r"\s*(?:(\*\*|&&|\|\||<>|<=|<<|>=|>>|[()+\-*/%&|^~=:?<>])|([A-Za-z][A-Za-z0-9._]*)|(0x[0-9a-fA-F]+)|([0-9][0-9.]*|\.[0-9]+))")
+_LEVELS = [["||"], ["&&"], ["|"], ["^"], ["&"], ["=", "<>"], ["<", "<=", ">", ">="], ["<<", ">>"], ["+", "-"], ["*", "/", "%"]]
+
+
+class _Reader:
+    def __init__(self, text):
+        self.text, self.pos, self.peeked = decode_all(text), 0, None
+
+    def peek(self):
+        if self.peeked is None:
+            m = _TOK.match(self.text, self.pos)
+            if not m:
+                if self.text[self.pos:].strip() == "":
+                    self.peeked = ("end", "")
+                    return self.peeked
+                raise ValueError("lex")
+            self.pos = m.end()
+            op, ident, hx, num = m.groups()
+            self.peeked = ("op", op) if op else ("id", ident) if ident else ("hex", hx) if hx else ("num", num)
+        return self.peeked
+
+    def eat(self, op):
+        if self.peek() == ("op", op):
+            self.peeked = None
+            return True
+        return False
+
+    def expr(self):
+        c = self.level(0)
+        if self.eat("?"):
+            t = self.expr()
+            if not self.eat(":"):
+                raise ValueError("colon")
+            return ("if", c, t, self.expr())
+        return c
+
+    def level(self, i):
+        if i == len(_LEVELS):
+            return self.unop()
+        e = self.level(i + 1)
+        while True:
+            k, v = self.peek()
+            if k == "op" and v in _LEVELS[i]:
+                self.peeked = None
+                e = ("bin", v, e, self.level(i + 1))
+            else:
+                return e
+
+    def unop(self):
+        if self.eat("~"):
+            return ("un", "~", self.unop(), "prefix")
+        if self.eat("-"):
+            return ("un", "NEG", self.unop(), "prefix")
+        self.eat("+")
+        b = self.primary()
+        if self.eat("**"):
+            return ("bin", "**", b, self.unop())
+        return b
+
+    def primary(self):
+        if self.eat("("):
+            e = self.expr()
+            if not self.eat(")"):
+                raise ValueError("paren")
+            return e
+        k, v = self.peek()
+        self.peeked = None
+        if k == "hex":
+            return ("int", int(v, 16), "hex")
+        if k == "num":
+            if "." not in v:
+                return ("int", int(v), "dec")
+            if v.count(".") != 1:
+                raise ValueError("float")
+            return ("flt", v)
+        if k == "id":
+            if v in ("PI", "E"):
+                return ("const", v)
+            if self.eat("("):
+                if v not in UNOPS or v == "~":
+                    raise ValueError("function")
+                e = self.expr()
+                if not self.eat(")"):
+                    raise ValueError("paren")
+                return ("un", v, e, "func")
+            return ("id", v)
+        raise ValueError("primary")
+
+
 def expected_safe(meta):
     if meta.get("malformed"):
-        cx = Ctx({})
+        cx = Ctx({n: tuple(v) for n, v in meta["env"]})
         for lit in meta.get("lits", []):
             cx.lits[lit] = f2b(float(lit))
+        try:
+            tree = _Reader(meta["src"]).expr()
+            all_lits(tree, cx.lits)
+            ref_eval(cx, tree)
+        except Exception:
+            pass
         return None, None, cx
     return expected(meta)
 
@@ -560,6 +733,23 @@ def gen_cases(ck):
             use.append("Missing")        # unknown identifier -> error unless short-circuited away
         tree = gen_tree(rng, rng.range(1, 6), use, True)
         cases.append(mk(rng, tree, env))
+    # 3b. no white space at all / white space only where the lexer needs it: every operator pair in both nestings and the
+    #     unary / ternary / function / redundant-parenthesis / unary-plus combinations, raw, mixed and fully escaped
+    for o1 in BINOPS:
+        for o2 in BINOPS:
+            for tree in (("bin", o1, ("bin", o2, leaves[0], ("int", 7, "dec")), ("flt", ".5")),
+                         ("bin", o1, ("int", 0, "dec"), ("bin", o2, ("un", "NEG", leaves[1], "prefix"), ("int", 31, "hex")))):
+                esc = rng.below(3)
+                cases.append(mk(rng, tree, penv, style="min", ws=3, escape=esc))
+                if not quick:
+                    cases.append(mk(rng, tree, penv, style="rand", ws=0, escape=esc))
+        for tree in (("if", ("bin", o1, leaves[0], leaves[1]), ("un", "ABS", leaves[1], "func"), ("un", "~", leaves[2], "prefix")),
+                     ("un", "NEG", ("bin", o1, leaves[0], ("flt", "3.")), "func")):
+            cases.append(mk(rng, tree, penv, style="rand", ws=3, escape=rng.below(3)))
+    for _ in range(300 if quick else 6000):
+        names = sorted(set(rng.choice(NAMES) for _ in range(rng.range(0, 3))))
+        tree = gen_tree(rng, rng.range(1, 5), names, False)
+        cases.append(mk(rng, tree, rand_env(rng, names), style=rng.choice(["min", "rand", "full"]), ws=3, escape=rng.below(3)))
     # 4. malformed / outside the grammar: only model == implementation is compared
     for src, lits in MALFORMED:
         cases.append(make_case({"tree": None, "env": [], "src": src, "malformed": 1, "lits": lits}))
@@ -580,7 +770,33 @@ def gen_cases(ck):
         src = join_tokens(toks, rng, 1, 0)
         lits = sorted({x for x in toks if is_float_text(x)})
         cases.append(make_case({"tree": None, "env": [["X", ["int", 3]]], "src": src, "malformed": 1, "lits": lits}))
+    # 5. token soup rendered with minimal white space: arbitrary token sequences after a leading operand; formula::parse reads
+    #    an expression prefix (or panics) and peeks one more token, so this exercises the lexer on adjacent tokens of every
+    #    kind (model == implementation only)
+    for _ in range(400 if quick else 6000):
+        toks = [rng.choice(["X", "7", "0", "0x1f", ".5", "(X)", "1.5"])] + [rng.choice(SOUP_TOKENS) for _ in range(rng.range(1, 6))]
+        if toks[0] == "(X)":
+            toks = ["(", "X", ")"] + toks[1:]
+        src = join_min_space(toks, rng, rng.below(3))
+        if rng.chance(1, 6):
+            src = "".join(escape_token(t, rng, rng.below(3)) for t in toks)      # and with no separator at all
+        lits = sorted({x for x in toks if is_float_text(x)} | {y for y in re_float_texts(src)})
+        cases.append(make_case({"tree": None, "env": [["X", ["int", 3]], ["Y", ["int", 5]]], "src": src, "malformed": 1, "lits": lits}))
     return cases
+
+
+def re_float_texts(src):
+    """Every maximal digit/dot run of the source with exactly one dot (what the lexer may hand to f64::from_str), and the
+    `.digits` runs: the model's literal table must know them all."""
+    import re
+    out = set()
+    for m in re.finditer(r"[0-9][0-9.]*|\.[0-9]+", src):
+        t = m.group(0)
+        if t.count(".") == 1 and len(t) > 1:
+            out.add(t)
+    for m in re.finditer(r"\.[0-9]+", src):
+        out.add(m.group(0))
+    return out
 
 
 def is_float_text(x):
